@@ -413,13 +413,47 @@ Section EndToEnd.
   Proof. apply total_answers. simpl. unfold plain_items. rewrite !map_map. reflexivity. Qed.
 End EndToEnd.
 
-(* the fitted model of e.with_free_parameters(free): one copy of the default model per written analysis *)
+(* the fitted model of e.with_free_parameters(free), any bracketing e: analysis i (in the order written)
+   gets its own model (with_model) or the default one, with its own copy of every free prior *)
 Theorem fitted_free_end_to_end (e : expr) (default : list nat) (own : list (list nat)) (free : list nat) :
   nofree e = true -> is_leaf e = false ->
   fitted_models cfg_now (kind_of (eval cfg_now (Free e))) (items_of (eval cfg_now (Free e))) default own free
-  = modify_free free (length (leaves e)) default.
+  = modify_free_own free default own (spec_items KFree (leaves e)).
 Proof.
   intros N L. change (eval cfg_now (Free e)) with (with_free (eval cfg_now e)).
-  rewrite (items_of_sum e N L), with_free_spec. simpl. rewrite reindex_length. unfold plain_items. rewrite map_length.
-  reflexivity.
+  rewrite (items_of_sum e N L), with_free_spec. reflexivity.
 Qed.
+
+Lemma free_own_no_models (free default : list nat) (own : list (list nat)) : forall (its : list item) (s : nat),
+  forallb (fun it => negb (item_hm it)) its = true ->
+  map (fun p => free_model free (fst p) (base_model default own (snd p))) (number_from s its)
+  = map (fun i => free_model free i default) (seq s (length its)).
+Proof.
+  induction its as [|it its IH]; intros s H; [reflexivity|].
+  simpl in H. apply andb_true_iff in H. destruct H as [Hi Hr]. simpl. rewrite (IH (S s) Hr). f_equal.
+  unfold base_model. destruct (item_hm it); [discriminate|reflexivity].
+Qed.
+
+Lemma reindex_hm (l : list (nat * bool)) : forall i,
+  any_model l = false -> forallb (fun it => negb (item_hm it)) (reindex_from i (plain_items l)) = true.
+Proof.
+  unfold any_model, plain_items. induction l as [|[j h] l IH]; intros i H; [reflexivity|].
+  simpl in H. apply orb_false_iff in H. destruct H as [Hh Hl]. simpl in Hh. subst h. simpl. apply IH. exact Hl.
+Qed.
+
+(* ... which, when no analysis carries a model, is one copy of the default model per written analysis *)
+Theorem fitted_free_plain_end_to_end (e : expr) (default : list nat) (own : list (list nat)) (free : list nat) :
+  nofree e = true -> is_leaf e = false -> any_model (leaves e) = false ->
+  fitted_models cfg_now (kind_of (eval cfg_now (Free e))) (items_of (eval cfg_now (Free e))) default own free
+  = modify_free free (length (leaves e)) default.
+Proof.
+  intros N L M. rewrite (fitted_free_end_to_end e default own free N L).
+  unfold modify_free_own, modify_free. simpl spec_items.
+  rewrite (free_own_no_models free default own _ 0 (reindex_hm (leaves e) 0 M)).
+  rewrite reindex_length. unfold plain_items. rewrite map_length. reflexivity.
+Qed.
+
+(* /repo today: free parameters over own models keep the own models *)
+Theorem fitted_free_own_now (its : list item) (default : list nat) (own : list (list nat)) (free : list nat) :
+  fitted_models cfg_now KFree its default own free = modify_free_own free default own its.
+Proof. reflexivity. Qed.
